@@ -129,13 +129,23 @@ func (n *Node) Execute(ctx context.Context) error {
 	if err != nil {
 		return err
 	}
-	n.SetError(cmd.Run())
+	// The captured output is read while the command runs: a pipe holds only
+	// 64 KiB, and a command that prints more would block forever if the pipe
+	// were read after it has ended.
+	var captured chan string
 	if n.outputReader != nil && n.data.Step.Output != "" {
+		captured = make(chan string, 1)
+		go func(r io.Reader) {
+			var buf bytes.Buffer
+			// TODO: Error handling
+			_, _ = io.Copy(&buf, r)
+			captured <- buf.String()
+		}(n.outputReader)
+	}
+	n.SetError(cmd.Run())
+	if captured != nil {
 		util.LogErr("close pipe writer", n.outputWriter.Close())
-		var buf bytes.Buffer
-		// TODO: Error handling
-		_, _ = io.Copy(&buf, n.outputReader)
-		ret := strings.TrimSpace(buf.String())
+		ret := strings.TrimSpace(<-captured)
 		_ = os.Setenv(n.data.Step.Output, ret)
 		n.data.Step.OutputVariables.Store(
 			n.data.Step.Output,
